@@ -1,5 +1,5 @@
 """Property -> rules map."""
-from . import rules_case, lea_glue, rules_struct
+from . import rules_case, lea_glue, rules_struct, rules_bulk
 
 PROPS = {}
 
@@ -113,6 +113,15 @@ def c12(cx):
 def c17(cx):
     fx = cx.facts("dev-none-stable")
     rules_struct.r_bom_order(cx, fx)
+    rules_struct.r_units(cx, ["dev-none-stable"])
+
+
+@prop("C05", "sibling-implementation agreement R-BULK-AGREE: the field initialisers of into_resolved_token_vec and the "
+             "bodies of the per-token accessors are evaluated symbolically from their HIR and compared on witnesses of "
+             "every order type of the compared offsets (token / next token / line start), for inner tokens and the EOF "
+             "token, in the debug and the release configuration; plus R-UNITS on buffer.rs.")
+def c05(cx):
+    rules_bulk.run(cx)
     rules_struct.r_units(cx, ["dev-none-stable"])
 
 
